@@ -2,7 +2,7 @@ from abc import ABC, abstractmethod
 from collections.abc import Sequence
 from inspect import isclass
 from itertools import chain
-from numpy import abs, diag, exp, eye, log, zeros, ndarray, ptp
+from numpy import abs, asarray, diag, exp, eye, log, zeros, ndarray, ptp
 
 
 class CovarianceFunction(ABC):
@@ -214,7 +214,9 @@ class SquaredExponential(CovarianceFunction):
         Pre-calculates hyperparameter-independent part of the data covariance
         matrix as an optimisation.
         """
-        # distributed outer subtraction using broadcasting
+        # distributed outer subtraction using broadcasting (in floating point:
+        # differences of integer-typed coordinates, or their squares, can overflow)
+        x = asarray(x, dtype=float)
         self.dx = x[:, None, :] - x[None, :, :]
         self.distances = -0.5 * self.dx**2
         # small values added to the diagonal for stability
@@ -240,6 +242,7 @@ class SquaredExponential(CovarianceFunction):
     def __call__(self, u: ndarray, v: ndarray, theta: ndarray) -> ndarray:
         a = exp(theta[0])
         L = exp(theta[1:])
+        u = asarray(u, dtype=float)
         D = -0.5 * (u[:, None, :] - v[None, :, :]) ** 2
         C = exp((D / L[None, None, :] ** 2).sum(axis=2))
         return (a**2) * C
@@ -311,7 +314,9 @@ class RationalQuadratic(CovarianceFunction):
         Pre-calculates hyperparameter-independent part of the data covariance
         matrix as an optimisation.
         """
-        # distributed outer subtraction using broadcasting
+        # distributed outer subtraction using broadcasting (in floating point:
+        # differences of integer-typed coordinates, or their squares, can overflow)
+        x = asarray(x, dtype=float)
         self.dx = x[:, None, :] - x[None, :, :]
         self.distances = 0.5 * self.dx**2
         # small values added to the diagonal for stability
@@ -336,6 +341,7 @@ class RationalQuadratic(CovarianceFunction):
         a = exp(theta[0])
         k = exp(theta[1])
         L = exp(theta[2:])
+        u = asarray(u, dtype=float)
         D = 0.5 * (u[:, None, :] - v[None, :, :]) ** 2
         Z = (D / L[None, None, :] ** 2).sum(axis=2)
         return (a**2) * (1 + Z / k) ** (-k)
